@@ -558,6 +558,7 @@ func runC05(c *Ctx) {
 
 	// ---- C05.frame
 	ruleFrameLayout(c, p, "C05.frame", rb, wr)
+	ruleReaderSource(c, p, "C05.source")
 	c.R.Assumptions = append(c.R.Assumptions,
 		"CityHash128 detects single-byte alterations; lz4 / zstd decompress what they compressed (third-party codecs, not analysed)",
 		"decided: bounds before allocation, verification before use and on every success path, error content, exhausted-after-failure typestate, refill condition, no aliasing of raw and data, frame layout agreement of writer and reader; not decided: decompress(compress(x)) = x")
